@@ -201,3 +201,33 @@ func runC03(c *CheckCtx) {
 	c.evalAssumptions()
 	c.assumptions["errors.Is reachability of wrapped Go errors (fmt.Errorf %w in lib/call and NewGoError) is not modelled"] = true
 }
+
+// ---------------------------------------------------------------------------
+// C16: incomplete input is told apart from malformed input (token level)
+
+func init() {
+	register(&Property{
+		ID: "C16", Level: "proof",
+		Technique: "contract-based deductive verification: the recursive-descent reader functions against a token-level grammar of result classes (abstract rfC/rfP for one form with a checked one-step definition rfStep; recursive rlC/rlP for the rest of a bracketed sequence, carried by a loop invariant), error messages modelled through errors.New(s).Error() == s, and repl.multiLine against the same message set",
+		DesignRef: "DESIGN.md §4 C16",
+		Explain:   "for every token array: read_form/read_list/read_vector/read_hash_map/read_set/read_external return the class the grammar prescribes: the distinguished 'expected <closer>, got EOF' error exactly when the tokens run out inside a bracket, naming that (innermost) bracket's closer and passed on unchanged by every enclosing form; stray closers, malformed atoms, odd maps are a different class; multiLine is true exactly for the five distinguished messages",
+		Run:       runC16,
+	})
+}
+
+func runC16(c *CheckCtx) {
+	names := []string{"reader.read_form", "reader.read_list", "reader.read_vector", "reader.read_hash_map", "reader.read_set", "reader.read_external",
+		"reader.read_atom", "reader.read_placeholder", "(*reader.tokenReader).peek", "(*reader.tokenReader).next",
+		"types.NewHashMap", "types.NewSet", "types.GetSlice", "lisperror.NewLispError", "repl.multiLine"}
+	jobs := c.jobsFor(names, func(f *ssa.Function) *Job {
+		return &Job{Fn: f, PanicMode: "ignore"}
+	})
+	c.runJobs(jobs, func(o *Obligation) bool {
+		return o.Kind == "post" || o.Kind == "assert" || strings.HasPrefix(o.Kind, "frame")
+	})
+	c.assumptions["A-SCAN: text -> tokens is the third-party scanner; brackets inside strings, raw strings and comments are not tokens (assumed)"] = true
+	c.assumptions["A-FIX(reader): rfC/rfP are the class and end position of reading one form; recursive calls are assumed to return them, each function is checked for one unfolding (rfStep)"] = true
+	c.assumptions["the statement's characterisation (completable by closers <=> EOF class naming the innermost closer; complete => never EOF class) is read off the grammar rfStep/rlC; it is not proved as a lemma over all token sequences"] = true
+	c.assumptions["Read_str/READ return read_form's error unchanged and report left-over tokens with a different message: visible in the code, not a separate obligation; Go-constructor forms («…») are classified only while their bracket is open (a constructor may return any error)"] = true
+	c.assumptions["tokens are never modified after tokenize (preserves clauses on the reader functions, assumed at call sites)"] = true
+}
